@@ -53,6 +53,9 @@ def gen_tm(rng, values, sep):
                                                   "^.$", "^..$"])}
 
 
+VERSION = [0]   # every generated rule object is a version of its own (observable: which version answers a request)
+
+
 def gen_rule(rng, rid, exprs, rich=False):
     """rich: also values outside ASCII (UTF-8 in the JSON case; only for harnesses reading strings as UTF-8)"""
     routes = []
@@ -91,8 +94,10 @@ def gen_rule(rng, rid, exprs, rich=False):
                 hosts.append({"type": "glob", "value": rng.choice(HOST_GLOBS)})
             else:
                 hosts.append({"type": "regex", "value": rng.choice(HOST_REGEXES)})
+    VERSION[0] += 1
     return {"id": rid, "bt": rng.choice([True, False, None]), "esh": rng.choice(["", "", "off", "on", "no_decode"]),
-            "scheme": rng.choice(["", "", "", "http", "https"]), "methods": methods, "hosts": hosts, "routes": routes}
+            "scheme": rng.choice(["", "", "", "http", "https"]), "methods": methods, "hosts": hosts, "routes": routes,
+            "ver": VERSION[0]}
 
 
 def gen_target(rng, exprs, raw=False):
@@ -178,11 +183,48 @@ def rename_case(rng):
     return {"fam": "repo", "dr": rng.random() < 0.5, "dr_bt": False, "ops": ops}
 
 
+def reorder_case(rng):
+    """an update that only permutes the rules of a rule set whose rules share a path expression: the first rule whose
+    conditions hold answers, the order of the current version decides"""
+    e = rng.choice(["/a/:x", "/a/b", "/:x", "/a/*r"])
+    less = rng.choice(["/**", "/:y/:z", "/*all"])
+
+    def r(i, methods, bt):
+        VERSION[0] += 1
+        return {"id": i, "bt": bt, "esh": "", "scheme": "", "methods": methods, "hosts": [], "routes": [{"path": e, "pp": []}],
+                "ver": VERSION[0]}
+    rules = [r("A", rng.choice([["GET"], ["GET", "POST"]]), rng.choice([True, False])), r("B", [], rng.choice([True, False]))]
+    if rng.random() < 0.5:
+        rules.append(r("C", ["POST"], rng.choice([True, False])))
+    other = r("Z", [], None)
+    other["routes"] = [{"path": less, "pp": []}]
+    perm = rules[:]
+    while perm == rules:
+        rng.shuffle(perm)
+    t = e.replace(":x", "7").replace("*r", "7/8")
+    finds = [{"op": "find", "method": m, "host": "a.example.com", "target": t} for m in ("GET", "POST", "DELETE")]
+    ops = [{"op": "add", "src": "s1", "rules": rules}, {"op": "add", "src": "s2", "rules": [other]}] + finds + \
+          [{"op": "upd", "src": "s1", "rules": perm}] + finds
+    return {"fam": "repo", "dr": rng.random() < 0.5, "dr_bt": False, "ops": ops}
+
+
 def gen_repo_case(rng, max_ops=12):
-    if rng.random() < 0.04:
+    x = rng.random()
+    if x < 0.04:
         return rename_case(rng)
-    exprs = http_exprs(rng)
+    if x < 0.08:
+        return reorder_case(rng)
+    base = http_exprs(rng)
     srcs = ["s1", "s2", "s3"]
+    # half of the cases: most expressions of a source live below its own subtree, so that several sources are loaded
+    # side by side (updates and deletions next to foreign subtrees); the other half: one shared pool, where the
+    # one-source-per-expression constraint rejects many changes
+    if rng.random() < 0.5:
+        pool = {x: ["/" + x + e if e.startswith("/") else "/" + x + "/" + e for e in base] +
+                rng.sample(base, min(len(base), rng.choice([0, 1, 1]))) for x in srcs}
+    else:
+        pool = {x: base for x in srcs}
+    exprs = sorted({e for p in pool.values() for e in p})
     ops = []
     live = {}  # src -> rules
     nid = [0]
@@ -195,7 +237,7 @@ def gen_repo_case(rng, max_ops=12):
                 if x < 0.5:
                     rules.append(r)                      # unchanged
                 elif x < 0.75:
-                    r2 = gen_rule(rng, r["id"], exprs, rich=True)   # changed, same id
+                    r2 = gen_rule(rng, r["id"], pool[src], rich=True)   # changed, same id
                     rules.append(r2)
                 # else removed
             if rng.random() < 0.4:
@@ -205,7 +247,7 @@ def gen_repo_case(rng, max_ops=12):
             rid = "r%d" % nid[0]
             if rules and rng.random() < 0.05:
                 rid = rules[0]["id"]     # duplicate id inside one rule set
-            rules.insert(rng.randrange(len(rules) + 1), gen_rule(rng, rid, exprs, rich=True))
+            rules.insert(rng.randrange(len(rules) + 1), gen_rule(rng, rid, pool[src], rich=True))
         return rules
 
     def find_op():
@@ -216,6 +258,7 @@ def gen_repo_case(rng, max_ops=12):
 
     for _ in range(rng.randrange(3, max_ops)):
         r = rng.random()
+        change = True
         if r < 0.25 or not live:
             src = rng.choice(srcs)
             rules = new_rules(src)
@@ -233,6 +276,11 @@ def gen_repo_case(rng, max_ops=12):
             live.pop(src, None)
         else:
             ops.append(find_op())
+            change = False
+        if change and rng.random() < 0.7:
+            # matching is looked at after (nearly) every prefix of the history
+            for _ in range(rng.choice([1, 2])):
+                ops.append(find_op())
     for _ in range(4):
         ops.append(find_op())
     return {"fam": "repo", "dr": rng.random() < 0.5, "dr_bt": rng.random() < 0.5, "ops": ops}
